@@ -156,4 +156,7 @@ def run(chk):
                         "variant lists of length 1..3 (the loop over func_ids is unrolled: a bound on the number of variants)",
                         "copy.deepcopy duplicates the argument trees (pyvc model)"]
     chk.not_covered += ["that the callee's own check_call accepts exactly the signatures it should (C12/C16)", "compile-time dispatch (the call node is replaced by the chosen variant's node)"]
+    # a variant is applicable only if the instantiation it needs respects the parameter bounds (shared with C12)
+    from .C12 import instantiation_checked
+    instantiation_checked(chk, tag="variant-applicability:")
     chk.use_engine(e)
